@@ -3,9 +3,9 @@
 package h
 
 import (
+	"fmt"
 	"os"
 	"runtime/debug"
-	"fmt"
 	"time"
 
 	"cosmossdk.io/math"
